@@ -549,13 +549,17 @@ func exerciseKeyword(k string, cls byte) string {
 	if cls == 'f' && len(k) < 31 && !strings.ContainsAny(k, " `") {
 		// function names keep their class inside back quotes, and a dotted key is
 		// found as the qualifier in front of a further '.' or back quote
-		probes := []struct{ in, what string }{{"`" + lower + "`(1)", "inside back quotes"}}
+		probes := []struct{ in, what string }{{"`" + lower + "`(1)", "inside back quotes"}, {"`" + lower, "behind a back quote that is never closed"}, {"1 union select `" + lower, "behind a back quote that is never closed, at the end of an attack"}}
 		if strings.Contains(k, ".") {
 			probes = append(probes, struct{ in, what string }{lower + ".x(1)", "as the qualifier before a further dot"}, struct{ in, what string }{lower + "`x`", "in front of a back-quoted name"})
 		}
 		for _, pb := range probes {
 			tr := li.VerifSQLTokens(pb.in, li.VerifSQLFlagQuoteNone|li.VerifSQLFlagAnsi)
-			if len(tr.Tokens) == 0 || !strings.EqualFold(tr.Tokens[0].Val, k) || tr.Tokens[0].Category != cls {
+			last := 0
+			if strings.HasPrefix(pb.in, "1 ") {
+				last = len(tr.Tokens) - 1
+			}
+			if len(tr.Tokens) == 0 || !strings.EqualFold(tr.Tokens[last].Val, k) || tr.Tokens[last].Category != cls {
 				return fmt.Sprintf("function name %q is not classified as such %s (%q)", k, pb.what, pb.in)
 			}
 		}
